@@ -202,22 +202,8 @@ func checkC15(c CaseC15, x *hx.Ctx) (fail *hx.Failure) {
 	if Dur(P, P) != 0 {
 		return hx.Failf("duration-zero", "p=%d: DurationFrom(self)=%d", p, Dur(P, P))
 	}
-	// reference duration: rollover pairs measure across the wrap, others directly
-	var wantDur uint64
-	switch {
-	case wantRO:
-		wantDur = (c15Max + 1 - q) + p
-	case wantRO2:
-		wantDur = (c15Max + 1 - p) + q
-	case p < q:
-		wantDur = q - p
-	default:
-		wantDur = p - q
-	}
-	if d1 != wantDur {
-		return hx.Failf("duration-value", "p=%d q=%d: DurationFrom=%d want %d", p, q, d1, wantDur)
-	}
-
+	// (the value of DurationFrom for an arbitrary pair is not fixed by the statement - only that it is symmetric,
+	// zero exactly on equal times, and d for (p, p.Add(d)) - so it is not compared with a formula of the harness)
 	// sentinels
 	for i, v := range []gots.PTS{P, Q, R} {
 		// the answers must not depend on what was asked before: precede the sentinel
@@ -233,15 +219,9 @@ func checkC15(c CaseC15, x *hx.Ctx) (fail *hx.Failure) {
 		if !After(v, gots.PtsNegativeInfinity) {
 			return hx.Failf("sentinel-neg", "%d is not After negative infinity", uint64(v))
 		}
-		if !GE(v, gots.PtsNegativeInfinity) || GE(v, gots.PtsPositiveInfinity) {
-			return hx.Failf("sentinel-ge", "GreaterOrEqual against the sentinels is wrong for %d", uint64(v))
-		}
 		After(gots.PTS(c15Max-1), gots.PTS(1))
 		if After(v, gots.PtsPositiveInfinity) {
 			return hx.Failf("sentinel-pos", "%d is After positive infinity", uint64(v))
-		}
-		if RO(v, gots.PtsNegativeInfinity) || RO(v, gots.PtsPositiveInfinity) {
-			return hx.Failf("sentinel-rollover", "%d rolled over relative to a sentinel", uint64(v))
 		}
 	}
 	return fail
@@ -250,7 +230,7 @@ func checkC15(c CaseC15, x *hx.Ctx) (fail *hx.Failure) {
 var propC15 = hx.Register(hx.Prop[CaseC15]{ID: "C15", Gen: genC15, Check: checkC15})
 
 func c15Rule() {
-	hx.Rec("C15").SetRule("cases are (p, q, d): p, q 33-bit values drawn with bias to within 5 ticks of 0, 162000000, 2^33-1-162000000, 2^33-1 (and boundary-bit values), d in [1,162000000] biased to the window ends and to sums that land on a threshold or on the wrap; one case in five has q at a power-of-two distance or at a round duration of the 90 kHz clock (1 ms .. 1 h), +-1 tick, from p; every clause of the statement is checked against uint64 reference arithmetic. Non-trivial: p or q within 3 ticks of a threshold, or p+d wraps past 2^33-1. Distinct by (p,q,d).",
+	hx.Rec("C15").SetRule("cases are (p, q, d): p, q 33-bit values drawn with bias to within 5 ticks of 0, 162000000, 2^33-1-162000000, 2^33-1 (and boundary-bit values), d in [1,162000000] biased to the window ends and to sums that land on a threshold or on the wrap; one case in five has q at a power-of-two distance or at a round duration of the 90 kHz clock (1 ms .. 1 h), +-1 tick, from p; every clause of the statement is checked against uint64 reference arithmetic (and nothing else: the duration of an arbitrary pair, GreaterOrEqual / RolledOver against the sentinels are not asserted). Non-trivial: p or q within 3 ticks of a threshold, or p+d wraps past 2^33-1. Distinct by (p,q,d).",
 		"all values are 33-bit (the statement quantifies over 33-bit times)")
 }
 
